@@ -308,9 +308,18 @@ def _rt_case(draw, threads=False):
             warm = [x[0] for x in cur["inst"] if x[0] in CACHED][:draw(st.integers(0, 18))]
             ops += [["q", draw(st.sampled_from("ITMN")), c, 0] for c in warm]
             rd = _redeclare(draw, cur)
+            # the very last lookup before the declaration changes and the very first one after it ask for the same
+            # class (a result remembered from the last lookup must not outlive the declaration it was made for)
+            bracket = None
+            if draw(st.integers(0, 2)) != 0:
+                c, n_ = _class_target(draw, cur)
+                bracket = c
+                ops.append(["q", draw(st.sampled_from("ITMNPQ")), c, 0])
             ops.append(rd)
             prev = sorted(set((cur.get("prev") or []) + [x[0] for x in cur["inst"]]))
             cur = {"name": rd[1], "size": rd[2], "fdefs": t["fdefs"], "inst": rd[3], "prev": prev}
+            if bracket is not None:
+                ops.append(["q", draw(st.sampled_from("ITMNPQ")), bracket, 0])
             ops += [_op(draw, cur, False) for _ in range(draw(st.integers(1, 30)))]
     # every alias lookup is followed (not necessarily at once) by lookups of the same class with the real class object
     out = []
